@@ -145,6 +145,8 @@ class LifterModel(object):
                 S = afs.u16
             live = live if live is not None else set(range(256))
             live_reg = sorted(b & 7 for b in live if b >= 0xC0)
+            if live_reg and X.dis_digit_reg_rejected(modifs, dibs):
+                live_reg = []           # _dis returns None for a register r/m operand of this row
             live_mem = any(b < 0xC0 for b in live)
             if modifs.get(mmx):
                 if live_reg:
@@ -153,7 +155,7 @@ class LifterModel(object):
                     rn = {afs.mm: afs.reg_mm_base, afs.xmm: afs.reg_xmm_base}.get(adm_, 0) + live_reg[-1]
                     base.append(('rm=reg%d' % live_reg[-1], [self.REG(rn, S)]))
             else:
-                if not (rmr in dibs) and live_reg:
+                if live_reg:
                     r0 = 3 if 3 in live_reg else live_reg[0]
                     base.append(('rm=reg%d' % r0, [self.REG(r0, S)]))
                     if S == afs.u08 and self.rich and 7 in live_reg:
